@@ -145,6 +145,13 @@ def limit_use(F, f, b, holder, depth=0):
                 continue
             if rv["k"] == "unop" and rv["op"] == "PtrMetadata":
                 continue
+            if rv["k"] == "binop" and rv["op"].replace("WithOverflow", "") in ("Add", "Sub") and not dst["proj"] and \
+                    (core.op_const_val(rv["a"]) is not None or core.op_const_val(rv["b"]) is not None):
+                # the limit shifted by a literal (`MAX - 1`, `MAX + 1`): still a limit if the result is only used as one
+                r = limit_use(F, f, ub, dst["local"], depth + 1)
+                if r:
+                    return r
+                continue
             return "%s at %s" % (rv["k"] + (":" + rv.get("op", "") if rv.get("op") else ""), f.loc(ub))
         elif kind == "assert":
             continue
@@ -282,6 +289,10 @@ def v1_limit_uses(chk, F, F0, tree, tag):
                         bad = limit_use(F, f, b, s["place"]["local"])
                     elif rv["k"] == "aggregate" and "ops::range::Range" in rv.get("path", ""):
                         bad = range_is_selector_only(F, f, s["place"]["local"])
+                    elif rv["k"] == "binop" and rv["op"].replace("WithOverflow", "") in ("Add", "Sub") and \
+                            (core.op_const_val(rv["a"]) is not None and core.op_const_val(rv["b"]) is not None):
+                        # `LIMIT - 1` / `LIMIT + 1` with a literal: a limit if the result is only used as one
+                        bad = limit_use(F, f, b, s["place"]["local"])
                     else:
                         bad = "%s at %s" % (rv["k"] + ":" + str(rv.get("op", "")), f.loc(b))
                     chk.ob("V1.build-limit-used-only-as-limit", "%s|%s|%d%s" % (f.key, cp.rsplit("::", 1)[-1], n_in_fn(f, cp, b, si), tag), bad is None,
